@@ -241,6 +241,9 @@ class Check:
         self.known = KnownFindings(prop)
         self.exhaustive = None
         os.makedirs(os.path.join(REPLAYS, prop), exist_ok=True)
+        import glob
+        for old in glob.glob(os.path.join(REPLAYS, prop, "%s-seed%s-*.json" % (tier, seed))):
+            os.remove(old)
 
     def rng(self, salt=""):
         return random.Random("%s/%s/%s" % (self.prop, self.seed, salt))
